@@ -50,8 +50,7 @@ Record shard := { s_id : N; s_min : str; s_max : str }.
 Record group := {
   g_id : N; g_start : Z; g_end : Z; g_deleted : bool; g_trunc : option Z;
   g_shards : list shard;
-  g_alive : list nat;                 (* indexes of the shards whose partition is online (GetAliveShards) *)
-  g_mstidx : option (list nat)        (* MeasurementInfo.ShardIdexes[group] when InitNumOfShards <> 0 *)
+  g_alive : list nat                  (* indexes of the shards whose partition is online (GetAliveShards) *)
 }.
 Inductive shtype := Hash | Range.
 Record cfg := {
@@ -60,7 +59,9 @@ Record cfg := {
   c_sk : list str;                    (* shard-key tags, sorted; [] = no shard key (nil ShardKey) *)
   c_typ : shtype;
   c_dur : Z;                          (* shard-group duration *)
-  c_groups : list group               (* catalogue order (sorted by end, start) *)
+  c_groups : list group;              (* catalogue order (sorted by end, start) *)
+  c_mstidx : option (list (N * list nat))   (* MeasurementInfo.ShardIdexes (group id -> shard indexes) when
+                                               InitNumOfShards <> 0, else None *)
 }.
 
 Definition tagset := list (str * str).
@@ -108,11 +109,15 @@ Definition wkey (c : cfg) (p : point) : option tagset :=
        | sk => let r := sel_keys sk (p_tags p) in if snd r then Some (fst r) else None
        end.
 
-Definition eff_idx (g : group) : list nat := match g_mstidx g with Some l => l | None => g_alive g end.
+Definition eff_idx (c : cfg) (g : group) : list nat :=
+  match c_mstidx c with
+  | Some m => match find (fun x => N.eqb (fst x) (g_id g)) m with Some x => snd x | None => [] end
+  | None => g_alive g
+  end.
 
 (* ShardFor: shards[idx[h mod len idx]] *)
-Definition shard_for (h : N) (g : group) : option shard :=
-  let idx := eff_idx g in
+Definition shard_for (c : cfg) (h : N) (g : group) : option shard :=
+  let idx := eff_idx c g in
   match idx with
   | [] => None
   | _ => match nth_error idx (N.to_nat (h mod N.of_nat (length idx))) with
@@ -205,7 +210,7 @@ Definition route_in (c : cfg) (g : group) (p : point) : option shard :=
   | Some ps =>
       match c_typ c with
       | Range => dest_shard (c_mst c ++ key_suffix ps) g
-      | Hash => shard_for (hash (hash_arg c ps)) g
+      | Hash => shard_for c (hash (hash_arg c ps)) g
       end
   end.
 
@@ -232,6 +237,66 @@ Definition route_cached (cache : option group) (c : cfg) (p : point) : option (g
   | Some g => match route_in c g p with Some s => Some (g, s) | None => None end
   end.
 
+(* ------------------------------------------------------------------ several measurements, shard-key history, batches *)
+(* a measurement: its configuration (c_sk is a placeholder) and MeasurementInfo.ShardKeys as (ShardGroup threshold, key) *)
+Record mcfg := { m_cfg : cfg; m_vers : list (N * list str) }.
+Definition set_sk (c : cfg) (sk : list str) : cfg :=
+  {| c_mst := c_mst c; c_tagkeys := c_tagkeys c; c_sk := sk; c_typ := c_typ c; c_dur := c_dur c;
+     c_groups := c_groups c; c_mstidx := c_mstidx c |}.
+(* GetShardKey(group id): the last entry whose threshold is <= the id *)
+Fixpoint sk_scan (vs : list (N * list str)) (gid : N) : option (list str) :=
+  match vs with
+  | [] => None
+  | (thr, sk) :: r => match sk_scan r gid with
+                      | Some x => Some x
+                      | None => if N.leb thr gid then Some sk else None
+                      end
+  end.
+(* configuration in force for a group; no entry = nil ShardKeyInfo: the read path consults every shard *)
+Definition cfg_at (m : mcfg) (gid : N) : cfg :=
+  set_sk (m_cfg m) (match sk_scan (m_vers m) gid with Some sk => sk | None => [] end).
+
+(* routeAndMapOriginRows: one ingestion context per batch remembers the previous row's shard group (preSg), the
+   previous row's measurement (preMst / sameMst) and the shard-key definition last looked up (ctx.shardKeyInfo), which is
+   looked up again only when the group or the measurement changed *)
+Inductive rowkind :=
+| RRoute
+| RDrop     (* the row is rejected by the schema check, after its measurement was resolved and before it is routed *)
+| RSkip.    (* the row is rejected before its measurement is looked at (timestamp outside the retention window) *)
+Record brow := { r_m : mcfg; r_kind : rowkind; r_p : point }.
+Record bstate := { b_sg : option group; b_mst : option str; b_sk : option (list str) }.
+Definition b_empty : bstate := {| b_sg := None; b_mst := None; b_sk := None |}.
+
+(* use_cache = true: today's code; false: the shard key is looked up for every row *)
+Definition batch_step (use_cache : bool) (st : bstate) (r : brow) : bstate * option (group * shard) :=
+  let c0 := m_cfg (r_m r) in
+  let same_mst := match b_mst st with Some n => str_eqb n (c_mst c0) | None => false end in
+  match r_kind r with
+  | RSkip => (st, None)
+  | RDrop => ({| b_sg := b_sg st; b_mst := Some (c_mst c0); b_sk := b_sk st |}, None)
+  | RRoute =>
+      let t := p_time (r_p r) in
+      let hit := match b_sg st with Some g => g_contains g t | None => false end in
+      match pick_group (b_sg st) (c_groups c0) t with
+      | None => ({| b_sg := None; b_mst := Some (c_mst c0); b_sk := b_sk st |}, None)
+          (* no group: the real loop returns the error and the batch ends; the model goes on without a cached group *)
+      | Some g =>
+          let sk := if use_cache && hit && same_mst then b_sk st else sk_scan (m_vers (r_m r)) (g_id g) in
+          match sk with
+          | None => ({| b_sg := Some g; b_mst := Some (c_mst c0); b_sk := None |}, None)
+          | Some k =>
+              ({| b_sg := Some g; b_mst := Some (c_mst c0); b_sk := Some k |},
+               match route_in (set_sk c0 k) g (r_p r) with Some s => Some (g, s) | None => None end)
+          end
+      end
+  end.
+
+Fixpoint batch_run (use_cache : bool) (st : bstate) (rows : list brow) : list (option (group * shard)) :=
+  match rows with
+  | [] => []
+  | r :: rest => let x := batch_step use_cache st r in snd x :: batch_run use_cache (fst x) rest
+  end.
+
 (* the loop of TargetShards over the tag sets; None = "return every alive shard" *)
 Fixpoint tloop (v : variant) (c : cfg) (g : group) (acc : str) (tss : list tagset) : option (list shard) :=
   match tss with
@@ -246,7 +311,7 @@ Fixpoint tloop (v : variant) (c : cfg) (g : group) (acc : str) (tss : list tagse
                  end
       | Hash => if snd r then
                   match tloop v c g key rest with
-                  | Some res => Some (match shard_for (hash (after_name c key)) g with
+                  | Some res => Some (match shard_for c (hash (after_name c key)) g with
                                       | Some s => [s] | None => [] end ++ res)
                   | None => None
                   end
@@ -273,6 +338,14 @@ Definition query_groups (c : cfg) (tmin tmax : Z) : list group :=
 (* what the read path consults: (group id, shard id) *)
 Definition target (v : variant) (c : cfg) (tmin tmax : Z) (cond : option expr) : list (N * N) :=
   flat_map (fun g => map (fun s => (g_id g, s_id s)) (target_group v c g cond)) (query_groups c tmin tmax).
+
+(* mapMstShards: the shard key used for pruning; today the key of the FIRST selected group is kept for all groups
+   (v_ski = false), repaired: the key in force for each group *)
+Definition target_m (v : variant) (per_group_key : bool) (m : mcfg) (tmin tmax : Z) (cond : option expr) : list (N * N) :=
+  let qs := query_groups (m_cfg m) tmin tmax in
+  flat_map (fun g =>
+              let gid := if per_group_key then g_id g else match qs with g0 :: _ => g_id g0 | [] => g_id g end in
+              map (fun s => (g_id g, s_id s)) (target_group v (cfg_at m gid) g cond)) qs.
 
 Definition consulted (v : variant) (c : cfg) (tmin tmax : Z) (cond : option expr) (gs : group * shard) : bool :=
   existsb (fun x => N.eqb (fst x) (g_id (fst gs)) && N.eqb (snd x) (s_id (snd gs))) (target v c tmin tmax cond).
